@@ -68,4 +68,55 @@ CHECKS.update({
         'note': COMMON_NOTE,
     },
 })
+CHECKS.update({
+    'C19': {
+        'text': 'For each of the 64 method classes and Basic.Properties, the six mapping functions of base._AMQData (__iter__, __len__, '
+                '__contains__, __getitem__, attributes, amqp_type) are executed symbolically on an instance with arbitrary (opaque) '
+                'attribute values and compared with the ordered argument list of the specification table; 390 contracts, no bound.',
+        'design_ref': 'DESIGN.md 4 C19',
+        'note': COMMON_NOTE + 'The "after a round trip" clause follows from C01/C02 (same class, attributes set by name).',
+    },
+    'C13': {
+        'text': 'Per validating class (21, taken from the specification table): validate raises ValueError iff a constraint is broken, '
+                '__init__ stores its arguments and raises iff validate does, base.Frame.marshal re-validates before producing bytes, '
+                'base.Frame.unmarshal assigns received values without validating; name lengths are symbolic character counts; the '
+                'compiled name patterns are shown equal to the specified character class on all 0x110000 code points.',
+        'design_ref': 'DESIGN.md 4 C13',
+        'note': COMMON_NOTE + 'I5: typed domains; an unset (None) argument is not validated by design. fullmatch is an uninterpreted '
+                'predicate tied to the automaton check (A6). Basic.Properties validation: see C02 cone.',
+    },
+    'C04': {
+        'text': 'Every encoder contract states result == specification bytes, with the specification written from the AMQP grammar '
+                '(spec/wire.py, never imports pamqp): the primitive encoders, frame._marshal, base.Frame.marshal for each of the 64 '
+                'classes (unrolled over the code slots, compared with the specification table order and LSB-first bit packing), '
+                '_marshal_method_frame and frame.marshal per class, protocol header, heartbeat and body.',
+        'design_ref': 'DESIGN.md 4 C04',
+        'note': COMMON_NOTE + 'Table-valued arguments enter as the opaque specification function enc_table (the table encoder is '
+                'verified against the field-table grammar in the C03 cone); float packing is assumption A3.',
+    },
+    'C01': {
+        'text': '64 ghost lemmas, one per method class: frame.unmarshal(frame.marshal(C(args), ch) ++ rest) returns the encoded length, '
+                'the channel, an instance of C and argument values equal in value and type (tables up to the C03 normalisation), for '
+                'all typed valid argument values, channels and trailing bytes; each lemma composes contracts that are themselves '
+                'discharged in this run (per-class marshal/unmarshal, method-frame encoders/decoders, primitives).',
+        'design_ref': 'DESIGN.md 4 C01',
+        'note': COMMON_NOTE + 'Assumed in the lemmas and decided in the C03 cone: dec_table(enc_table(d)) == norm_value(d).',
+    },
+    'C05': {
+        'text': 'Decoders are verified against a reference decoder written from the grammar (spec.wire.args_parse / method_parse) over '
+                'ARBITRARY octet strings: whenever the octets are grammar-valid (any integer bit pattern, unused bits set in bit octets, '
+                'long strings that are not UTF-8, names the library would refuse to send) every attribute equals the reference value '
+                'with its exact Python type; no validation on the decode path.',
+        'design_ref': 'DESIGN.md 4 C05',
+        'note': COMMON_NOTE + 'Field tables inside arguments enter through wf_table/dec_table (table decoder: C03 cone); content '
+                'headers: C02 cone; timestamps and decimals through assumed library contracts.',
+    },
+    'C09': {
+        'text': 'may-raise clauses, bottom-up: each primitive decoder raises only struct.error (short strings also '
+                'UnicodeDecodeError); base.Frame.unmarshal[C] on arbitrary octets raises only struct.error/ValueError/OverflowError; '
+                'frame._unmarshal_method_frame and every raising clause of frame.unmarshal raise only UnmarshalingException.',
+        'design_ref': 'DESIGN.md 4 C09',
+        'note': COMMON_NOTE + 'Nesting depth beyond the recursion limit is assumption A8.',
+    },
+})
 NOT_APPLICABLE = {}
